@@ -29,9 +29,18 @@ KEYWORDS_FALLBACK = ["var", "function", "return", "if", "else", "while", "do", "
                      "null", "void", "let", "const", "class", "get", "set", "async", "await", "yield", "static", "extends", "super"]
 LITERALS = ["0", "1", "1.5", "1e3", "0x1F", "0b11", "0o7", ".5", "5.", "1e", "0x", "09", "''", '"s"', "'a\\nb'", '"\\u0041"', "'\\x4'",
             "/a+/g", "/[/", "/(?=a)/", "x", "y", "foo", "$", "_a", "undefined", "NaN", "Infinity", "arguments", "eval", "label:", "\n", " ",
-            "// c\n", "/* c */", "/* open", "'open", '"open', "a.b", "a[0]", "f()", "f(1,2)", "[1,2]", "{a:1}", "(", ")", "()=>1", "x=>x"]
+            "// c\n", "/* c */", "/* open", "'open", '"open', "a.b", "a[0]", "f()", "f(1,2)", "[1,2]", "{a:1}", "(", ")", "()=>1", "x=>x",
+            # digits and escapes that Python's str methods / int() / chr() treat differently from ECMAScript
+            "\u00b2", "\u0663", "\uff11", "\u2167", "1\u00b2", "x\u00b2", "'\\u{110000}'", "'\\u{FFFFFFFFFF}'", "'\\u{}'", "'\\u{-1}'", "'\\x'", "'\\u12'",
+            "'\\u{1F600}'", "'\\ud800'", "1_0", "1_.5", "1_e3", "0x_1", "1e+", "1e400", "0b102", "0o8", "08", "1" * 420, "9" * 5000, "0." + "1" * 5000, "1e" + "9" * 30,
+            # statement snippets for the rarer productions
+            "try{}catch{}", "try{}catch(e){}", "try{}finally{}", "try{}catch(e){}finally{}", "for (a.b of [1]) {}", "for (a[0] in o) {}", "for (var [x] of y) {}",
+            "for (x of [1,2]) {}", "for (var k in {a:1}) {}", "for (;;) break;", "do x++; while (x < 3)", "switch (x) { default: }", "L: for (;;) { continue L; }",
+            "new a.b(1)", "new (f())()", "a?.b", "a ?? b", "`t${1}`", "x **= 2", "({get a(){return 1}, set a(v){}})", "({[k]: 1})", "function f(a = 1, ...r) {}",
+            "class A {}", "let x = 1", "const y = 2", "label: {break label;}", "var \u00e9 = 1", "a\n++b", "return 1", "x = function g(){ return g; }", "delete a.b", "void 0", "typeof typeof x"]
 
-SOUP_ALPHABET = list("(){}[];,.:?+-*/%<>=!&|^~'\"\\`#@ \n\t0123456789abcxyz_$") + ["é", " ", "\x00", "𝒳", "/*", "*/", "//", "=>", "var ", "function ", "return "]
+SOUP_ALPHABET = list("(){}[];,.:?+-*/%<>=!&|^~'\"\\`#@ \n\t0123456789abcxyz_$") + ["é", " ", "\x00", "𝒳", "/*", "*/", "//", "=>", "var ", "function ", "return ",
+                 "\u00b2", "\u0663", "\uff11", "\u2167", "\u2028", "\ufeff", "\r", "\\u{", "\\u", "\\x", "e", "E", "0x", "catch", "try", "of ", "in ", "new "]
 
 
 def keywords():
@@ -114,8 +123,10 @@ def repair_depth(src, limit=MAX_DEPTH):
         i += 1
     s = "".join(out)
     # keyword-prefix chains (typeof typeof ..., new new ..., x => x => ...) also recurse
-    s = re.sub(r"((?:\b(?:typeof|void|delete|new|await|yield)\b\s*){12})(?:\b(?:typeof|void|delete|new|await|yield)\b\s*)+", r"\1", s)
-    s = re.sub(r"((?:\w+\s*=>\s*){12})(?:\w+\s*=>\s*)+", r"\1", s)
+    if s.count("typeof") + s.count("void") + s.count("delete") + s.count("new") + s.count("await") + s.count("yield") > 12:
+        s = re.sub(r"((?:\b(?:typeof|void|delete|new|await|yield)\b\s*){12})(?:\b(?:typeof|void|delete|new|await|yield)\b\s*)+", r"\1", s)
+    if s.count("=>") > 12:
+        s = re.sub(r"((?:[A-Za-z_$][\w$]{0,40}\s{0,8}=>\s{0,8}){12})(?:[A-Za-z_$][\w$]{0,40}\s{0,8}=>\s{0,8})+", r"\1", s)
     return s
 
 
@@ -149,13 +160,20 @@ def gen_inputs(seed, kind, n, corpus, kw):
             s = " ".join(rnd.choice(vocab) for _ in range(rnd.randint(1, 25)))
             if rnd.random() < 0.3:
                 s = s.replace(" ", "")
+            w = rnd.random()
+            if w < 0.12:      # the same tokens as a function body / arrow body / callback: other compiler paths
+                s = "function f(){ %s }" % s
+            elif w < 0.2:
+                s = "var g = () => { %s };" % s
+            elif w < 0.28:
+                s = "[1].map(function(x){ %s });" % s
         elif kind == "corpus-mutation":
             src = rnd.choice(corpus)
             toks = split_tokens(src)
             if not toks:
                 continue
             for _m in range(rnd.randint(1, 3)):
-                op = rnd.choice(["delete", "duplicate", "swap", "insert", "truncate", "flip", "splice", "dropcloser", "dropquote"])
+                op = rnd.choice(["delete", "duplicate", "swap", "insert", "truncate", "flip", "splice", "dropcloser", "dropquote", "dropgroup", "wrapfn"])
                 i = rnd.randrange(len(toks))
                 if op == "delete":
                     del toks[i]
@@ -182,6 +200,21 @@ def gen_inputs(seed, kind, n, corpus, kw):
                     cl = [k for k, t in enumerate(toks) if t in (")", "]", "}", "*/")]
                     if cl:
                         del toks[rnd.choice(cl)]
+                elif op == "dropgroup":
+                    # delete one parenthesised group: catch (e) {..} -> catch {..}, f(a, b) -> f, if (c) -> if
+                    ops_ = [k for k, t in enumerate(toks) if t == "("]
+                    if ops_:
+                        k = rnd.choice(ops_)
+                        depth, j = 0, k
+                        while j < len(toks):
+                            depth += toks[j] == "("
+                            depth -= toks[j] == ")"
+                            if depth == 0:
+                                break
+                            j += 1
+                        del toks[k : j + 1]
+                elif op == "wrapfn":
+                    toks = ["function", " ", "wf", "(", ")", "{"] + toks + ["}"]
                 elif op == "dropquote":
                     qs = [k for k, t in enumerate(toks) if t[:1] in "'\"" and len(t) > 1]
                     if qs:
@@ -248,8 +281,24 @@ def classify_src(src, res):
     return ("syntax", info)
 
 
+_CORPUS_CACHE = []
+
+
+def _corpus():
+    if not _CORPUS_CACHE:
+        _CORPUS_CACHE.append([c["src"] for c in json.load(open(CORPUS, encoding="utf-8"))])
+    return _CORPUS_CACHE[0]
+
+
 def front_task(task):
-    """task = list of sources; returns per source (verdict, detail, shift-ok)."""
+    """task = list of sources, or ('gen', kind, seed, n) to generate them here.
+    Returns (sources, [(verdict, detail, shift)])."""
+    if isinstance(task, tuple) and task and task[0] == "gen":
+        task = gen_inputs(task[2], task[1], task[3], _corpus(), keywords())
+    return (list(task), _front_eval(task))
+
+
+def _front_eval(task):
     out = []
     for src in task:
         res = eval_src(src)
@@ -280,7 +329,8 @@ def front_task(task):
 # ------------------------------------------------------------------ (b) surface
 ADV = ["undefined", "null", "NaN", "Infinity", "-Infinity", "-1", "0", "-0", "1", "2", "0.5", "1.9", "-1.9", "2147483648", "4294967296",
        "9007199254740992", "1e21", '"1"', '"x"', '""', "true", "({})", "[]", "[1]", "[1,2]", "(function(){})", "({valueOf:function(){return 1}})",
-       '({toString:function(){return "2"}})', "/a/g", "new Uint8Array(2)", "Symbol", "({length: 3})", "1e300", '"abc"']
+       '({toString:function(){return "2"}})', "/a/g", "new Uint8Array(2)", "Symbol", "({length: 3})", "1e300", '"abc"',
+       '"\u00b2"', '"$\u00b2"', '"$1\u00b3"', '"\u0663"', '"\uff11"', '"$&$`$\'$1$01$$"', '"\ud800"', '"\u0000"', '"a"', '"1e"', '"0x"', "-2147483649", "255.5"]
 
 RECEIVERS = {
     "number": "(1.5)", "int": "(7)", "nan": "(NaN)", "string": '"abc"', "empty-string": '""', "bool": "(true)", "object": "({a:1})",
@@ -562,7 +612,7 @@ def run_atheris(chk, corpus):
                         data = f.read()
                 src = repair_depth(data.decode("utf-8", "ignore"))
                 # re-judge the saved input with the ordinary oracle (the saved input is the reproducible unit)
-                (verdict, info, shift), = front_task([src])
+                (verdict, info, shift), = front_task([src])[1]
                 if verdict in ("foreign", "hang", "badpos", "syntax-unpositioned") or shift is not None:
                     chk.violation("front|atheris|%s|%s" % (verdict, sig_of(info) if info else ""), {"sub": "front", "kind": "atheris-" + label, "src": src},
                                   "value or JSError", [verdict, info and info.get("cls"), info and (info.get("message") or "")[:100]], sub="front")
@@ -601,8 +651,7 @@ def main(chk):
     for kind, n in plan:
         per = 250 if kind in ("char-soup", "token-soup") else 60
         for b in range(0, n, per):
-            srcs = gen_inputs(core.shard_seed(chk.seed, "C04", kind, b), kind, per, corpus, kw)
-            tasks.append(srcs)
+            tasks.append(("gen", kind, core.shard_seed(chk.seed, "C04", kind, b), per))
             kinds.append(kind)
     if not quick:
         # every prefix of every small corpus program
@@ -611,13 +660,16 @@ def main(chk):
                 tasks.append([repair_depth(src[:i]) for i in range(len(src) + 1)])
                 kinds.append("every-prefix")
     res = pool.run(front_task, tasks, timeout=900)
-    for kind, srcs, rb in zip(kinds, tasks, res):
+    for kind, task, rb in zip(kinds, tasks, res):
         if isinstance(rb, (pool.HANG, pool.CRASH)):
-            # isolate
+            # isolate (regenerate the batch here: generation is a pure function of the seed)
+            srcs = gen_inputs(task[2], task[1], task[3], corpus, kw) if isinstance(task, tuple) else list(task)
             r1 = pool.run(front_task, [[s] for s in srcs], timeout=120)
             rb = []
             for s, r in zip(srcs, r1):
-                rb.append(("hang" if isinstance(r, pool.HANG) else "crash", None, None) if isinstance(r, (pool.HANG, pool.CRASH)) else r[0])
+                rb.append(("hang" if isinstance(r, pool.HANG) else "crash", None, None) if isinstance(r, (pool.HANG, pool.CRASH)) else r[1][0])
+        else:
+            srcs, rb = rb
         for src, (verdict, info, shift) in zip(srcs, rb):
             chk.count()
             chk.classify("%s: %s" % (kind, verdict))
@@ -692,6 +744,6 @@ def replay(rec):
         bad = surface_task([case["expr"]])
         return {"fails": bool(bad), "expected": "value or JSError", "actual": bad[0][1] if bad else "ok"}
     src = case["src"]
-    (verdict, info, shift), = front_task([src])
+    (verdict, info, shift), = front_task([src])[1]
     fails = verdict in ("foreign", "hang", "badpos", "syntax-unpositioned") or shift is not None
     return {"fails": fails, "expected": "value or positioned JSError", "actual": [verdict, info, shift]}
